@@ -738,6 +738,32 @@ theorem xLearner_shape (w : List Rat) :
   obtain ⟨p, hp, rfl⟩ := List.mem_map.mp hx
   exact relabel_labels_binary w p hp
 
+/-! ### lifted definitions that no model function consumes: tied by a theorem each (review R3) -/
+
+/-- `if n_units < 0: n_units = 0` (lifted `GridSrc.estClip`): the start of the search is a natural number and the
+    clip changes nothing on non-negative estimates — this is what lets `searchFrom` / `gridFrom` take `n0 : Nat`. -/
+theorem estimate_clip_spec (n : Int) :
+    0 ≤ GridSrc.estClip n ∧ (0 ≤ n → GridSrc.estClip n = n) ∧ (n < 0 → GridSrc.estClip n = 0) := by
+  unfold GridSrc.estClip
+  by_cases h : n < 0 <;> simp [h] <;> omega
+
+/-- `grid_offset=None` (lifted `GridSrc.defaultOffset`, a Series of zeros over the constraint index) leaves every
+    multiplier vector unchanged: for the default call `lambda_vecs_` ARE the vectors clause (a) talks about. -/
+theorem default_offset_identity (g : List (List Rat)) (k : Nat) (hl : ∀ lam ∈ g, lam.length = k) :
+    addOffset (List.replicate k GridSrc.defaultOffset) g = g := by
+  unfold addOffset
+  conv_rhs => rw [← List.map_id g]
+  apply List.map_congr_left
+  intro lam hlam
+  rw [← hl lam hlam]
+  exact zipWith_withOffset_default lam
+
+/-- the attribute `self.objective_weight` (lifted `GridSrc.objectiveWeight`, `1.0 - constraint_weight`) is the weight
+    the lifted `loss_fct` puts on the objective, in either spelling of the source. -/
+theorem loss_objective_weight (cw obj g : Rat) :
+    GridSrc.loss cw obj g = GridSrc.objectiveWeight cw * obj + cw * g := by
+  simp [GridSrc.loss, GridSrc.objectiveWeight]
+
 /-! Non-vacuity: concrete inputs evaluated by the kernel. -/
 example : lattice [true, false] false 1 = [[-1, 0], [0, 0], [0, 1], [1, 0]] := by decide +kernel
 example : lattice [false, false, false] true 2 =
